@@ -473,7 +473,8 @@ def _obs_worker(args):
             nj, nm = rng.randint(10, 14), rng.randint(2, 12)
             d, feats = gen.gen_instance(rng, rng.choice(["classic", "transport"]), nj=nj, nm=nm)
         else:
-            d, feats = gen.gen_instance(rng, rng.choice(["classic", "transport", "buffers", "full"]))
+            d, feats = gen.gen_instance(rng, rng.choice(["classic", "transport", "buffers", "full", "outs", "outs"]
+                                                        + (["outs"] * 6 if "OperationArray" in fac else [])))
         cfg = jsl.with_cfg(base, early=True, trunc_active=(rng.random() < 0.3), joker=2, obs=fac)
         pol = gen.Policy(random.Random(rng.randrange(1 << 30)), rng.choice([0.5, 0.8, 1.0]),
                          bad_p=(0.05 if prop == "C14" else 0.0))
@@ -677,8 +678,18 @@ def run_episode_c14(d, cfg, pol, hook, out, prop):
     for _ in range(300):
         a = pol(env)
         acts.append(a)
-        if a not in (0, 1):
+        import numpy as np
+        if not (isinstance(a, (int, np.integer)) and not isinstance(a, bool) and int(a) in (0, 1)):
+            # the oracle of "outside the action space" is the declared space itself
+            try:
+                inside = bool(env.action_space.contains(a))
+            except Exception:  # noqa
+                inside = False
+            if inside:
+                out["violations"].append({"kind": "contract:space_contains_non_action", "detail": "the action space "
+                                          "contains %r" % (a,), "replay": {"dsl": d}})
             out["bad_actions"] += 1
+            out.setdefault("bad_action_types", collections.Counter())[type(a).__name__] += 1
             before = (env.state, len(env.history), env.terminated, env.truncated, env.done)
             try:
                 env.step(a)
@@ -714,18 +725,20 @@ def run_episode_c14(d, cfg, pol, hook, out, prop):
 def _obs_check(ctx, prop):
     rng = random.Random(ctx.seed + (14 if prop == "C14" else 15))
     if ctx.quick():
-        args = [(rng.randrange(1 << 30), 16, (k % 2 == 1), prop) for k in range(4)]
+        args = [(rng.randrange(1 << 30), 16, (k % 2 == 1), prop) for k in range(8)]
     else:
         args = [(rng.randrange(1 << 30), 120, (k % 2 == 1), prop) for k in range(16)]
     outs = _pool_map(_obs_worker, args)
     tot = collections.Counter()
     byf, sizes, ends = collections.Counter(), collections.Counter(), collections.Counter()
+    badt = collections.Counter()
     for o in outs:
         for k in ("steps", "episodes", "bad_actions", "resets", "offer_sets", "compared_fields"):
             tot[k] += o[k]
         byf.update(o["by_factory"])
         sizes.update(o["sizes"])
         ends.update(o["ends"])
+        badt.update(o.get("bad_action_types", {}))
         ctx.violations.extend(o["violations"])
         for dd in o["disagreements"][:5]:
             ctx.broken_correspondence.append("model and implementation differ in %s" % dd["where"])
@@ -739,7 +752,7 @@ def _obs_check(ctx, prop):
                 "reading of the state indexed by job/machine number",
         "traces_validated_against_impl": tot["steps"], "episodes": tot["episodes"], "steps_by_factory": dict(byf),
         "instance_sizes": dict(sizes), "episode_end_histogram": dict(ends), "out_of_space_actions_tried": tot["bad_actions"],
-        "resets_checked": tot["resets"], "offer_sets_checked_for_collisions": tot["offer_sets"],
+        "out_of_space_actions_by_type": dict(badt), "resets_checked": tot["resets"], "offer_sets_checked_for_collisions": tot["offer_sets"],
         "fields_compared_with_model": tot["compared_fields"],
     })
     ctx.samples.append({"factories": FACTORIES, "note": "see instance_sizes / steps_by_factory"})
@@ -1373,9 +1386,9 @@ def c13(ctx):
             c2["seed"] = c["seed"] + 991
             variants.append(c2)
     probes = [(0, "plain", cases, 1), (1, "plain", cases, 1), (4242, "polluted", cases, 2), (31337, "interleaved", cases, 3),
-              (7, "polluted", cases, 4)]
+              (7, "polluted", cases, 4), (11, "shared", cases, 9)]
     if not ctx.quick():
-        probes += [(99991, "interleaved", cases, 5), (2, "plain", cases, 6), (123, "polluted", cases, 7)]
+        probes += [(99991, "interleaved", cases, 5), (2, "plain", cases, 6), (123, "polluted", cases, 7), (77, "shared", cases, 10)]
     probes.append((5, "plain", variants, 8))
     res = _pool_map(_c13_probe, probes)
     base = res[0]
@@ -1406,8 +1419,9 @@ def c13(ctx):
         "evaluations": nsteps * (len(probes) - 1), "distinct_nontrivial": nsteps,
         "rule": "one evaluation = one step digest (serialized state + observation + reward + flags) of an episode replayed "
                 "in a fresh interpreter: %d cases x %d interpreters with different PYTHONHASHSEED, with the global "
-                "random/numpy/torch generators consumed beforehand and between resets ('polluted'), and with a second "
-                "environment stepped in between ('interleaved'); deterministic instances additionally with another seed"
+                "random/numpy/torch generators consumed beforehand and between resets ('polluted'), with a second "
+                "environment stepped in between ('interleaved'), and with a second environment built from the same Compiler "
+                "object that runs first and in between ('shared'); deterministic instances additionally with another seed"
                 % (len(cases), len(probes)),
         "traces_validated_against_impl": len(cases) * (len(probes) - 1), "cases": len(cases),
         "interpreters": [(p[0], p[1]) for p in probes], "stochastic_cases": sum(1 for c in cases if c["stochastic"]),
